@@ -624,19 +624,19 @@ pub fn execute(plan: &Plan, ctx: &mut Ctx) {
                 ctx.count("fault.absent");
             }
             "LFE" if i < NF => {
-                let e = Er::Other(op.arg(1) as u8);
+                let e = er_of(op.arg(1) as u8);
                 script.f[i] = Out::Err(e);
                 rig.lf[i].set(Err(e.to_rrtk()));
                 ctx.count(if op.arg(1) == 1 { "fault.err1" } else { "fault.err2" });
             }
             "LBE" if i < NB => {
-                let e = Er::Other(op.arg(1) as u8);
+                let e = er_of(op.arg(1) as u8);
                 script.b[i] = Out::Err(e);
                 rig.lb[i].set(Err(e.to_rrtk()));
                 ctx.count(if op.arg(1) == 1 { "fault.err1" } else { "fault.err2" });
             }
             "LQE" if i < NQ => {
-                let e = Er::Other(op.arg(1) as u8);
+                let e = er_of(op.arg(1) as u8);
                 script.q[i] = Out::Err(e);
                 rig.lq[i].set(Err(e.to_rrtk()));
                 ctx.count(if op.arg(1) == 1 { "fault.err1" } else { "fault.err2" });
@@ -647,7 +647,7 @@ pub fn execute(plan: &Plan, ctx: &mut Ctx) {
                 ctx.count("fault.clock_move");
             }
             "CKE" if i < NC => {
-                let e = Er::Other(op.arg(1) as u8);
+                let e = er_of(op.arg(1) as u8);
                 script.ck[i] = Err(e);
                 rig.ck[i].set(Err(e.to_rrtk()));
                 ctx.count("fault.clock_err");
@@ -862,6 +862,10 @@ pub fn execute(plan: &Plan, ctx: &mut Ctx) {
                     ctx.violate("C02", "stream_timestamp", base(&spec.kind), detail);
                 } else {
                     ctx.violate("C02", "outcome", base(&spec.kind), detail.clone());
+                    // a selection that had candidates must return one of them (C03), not nothing
+                    if base(&spec.kind) == "latest" && got == Out::None && ins.iter().any(|o| o.is_some()) {
+                        ctx.violate("C03", "selection_absent", "latest", detail.clone());
+                    }
                     if plan.prop == "C16" {
                         ctx.violate("C16", "scratch_slot", base(&spec.kind), detail);
                     }
@@ -1051,7 +1055,7 @@ pub fn gen_c02(prop: &str, tier: Tier, rng: &mut Rng, seed: u64, run: u64) -> Pl
     let rate = *rng.pick(&[0.0, 0.1, 0.3, 0.5]);
     let extreme = rng.chance(0.15) && !specs.iter().any(|s| matches!(base(&s.kind), "expirer"));
     let base_t: i64 = if extreme {
-        *rng.pick(&[i64::MAX - 1000, i64::MIN + 1000])
+        *rng.pick(&[i64::MAX - 1000, i64::MIN + 1000, i64::MAX, i64::MIN, i64::MIN])
     } else {
         rng.range(-1_000_000_000_000, 1_000_000_000_000)
     };
@@ -1078,7 +1082,7 @@ pub fn gen_c02(prop: &str, tier: Tier, rng: &mut Rng, seed: u64, run: u64) -> Pl
                 0..=4 => {
                     let i = rng.below(NF as u64) as i64;
                     if faulty {
-                        if rng.chance(0.5) { plan.push("LFN", &[i]) } else { plan.push("LFE", &[i, rng.range(1, 2)]) }
+                        if rng.chance(0.5) { plan.push("LFN", &[i]) } else { plan.push("LFE", &[i, rng.range(1, 3)]) }
                     } else {
                         plan.push("LF", &[i, t, fb(rng.moderate_f32())]);
                     }
@@ -1086,7 +1090,7 @@ pub fn gen_c02(prop: &str, tier: Tier, rng: &mut Rng, seed: u64, run: u64) -> Pl
                 5..=7 => {
                     let i = rng.below(NB as u64) as i64;
                     if faulty {
-                        if rng.chance(0.5) { plan.push("LBN", &[i]) } else { plan.push("LBE", &[i, rng.range(1, 2)]) }
+                        if rng.chance(0.5) { plan.push("LBN", &[i]) } else { plan.push("LBE", &[i, rng.range(1, 3)]) }
                     } else {
                         plan.push("LB", &[i, t, rng.below(2) as i64]);
                     }
@@ -1094,7 +1098,7 @@ pub fn gen_c02(prop: &str, tier: Tier, rng: &mut Rng, seed: u64, run: u64) -> Pl
                 _ => {
                     let i = rng.below(NQ as u64) as i64;
                     if faulty {
-                        if rng.chance(0.5) { plan.push("LQN", &[i]) } else { plan.push("LQE", &[i, rng.range(1, 2)]) }
+                        if rng.chance(0.5) { plan.push("LQN", &[i]) } else { plan.push("LQE", &[i, rng.range(1, 3)]) }
                     } else if prop == "C19ill" && rng.chance(0.5) {
                         plan.push("LQ", &[i, t, fb(rng.moderate_f32()), rng.range(-2, 2), rng.range(-2, 2)]);
                     } else {
@@ -1107,7 +1111,7 @@ pub fn gen_c02(prop: &str, tier: Tier, rng: &mut Rng, seed: u64, run: u64) -> Pl
         if rng.chance(0.6) {
             let c = rng.below(NC as u64) as i64;
             if rng.chance(rate * 0.5) {
-                plan.push("CKE", &[c, rng.range(1, 2)]);
+                plan.push("CKE", &[c, rng.range(1, 3)]);
             } else {
                 let lim = specs.iter().find(|s| base(&s.kind) == "expirer").map(|s| s.param).unwrap_or(0);
                 let r = *rng.pick(&recent);
@@ -1209,7 +1213,7 @@ pub fn gen_graph(prop: &str, tier: Tier, rng: &mut Rng, seed: u64, run: u64) -> 
                 0..=5 => {
                     let i = rng.below(NF as u64) as i64;
                     if faulty {
-                        if rng.chance(0.5) { plan.push("LFN", &[i]) } else { plan.push("LFE", &[i, rng.range(1, 2)]) }
+                        if rng.chance(0.5) { plan.push("LFN", &[i]) } else { plan.push("LFE", &[i, rng.range(1, 3)]) }
                     } else {
                         plan.push("LF", &[i, t, fb(rng.moderate_f32())]);
                     }
@@ -1217,7 +1221,7 @@ pub fn gen_graph(prop: &str, tier: Tier, rng: &mut Rng, seed: u64, run: u64) -> 
                 6 | 7 => {
                     let i = rng.below(NB as u64) as i64;
                     if faulty {
-                        if rng.chance(0.5) { plan.push("LBN", &[i]) } else { plan.push("LBE", &[i, rng.range(1, 2)]) }
+                        if rng.chance(0.5) { plan.push("LBN", &[i]) } else { plan.push("LBE", &[i, rng.range(1, 3)]) }
                     } else {
                         plan.push("LB", &[i, t, rng.below(2) as i64]);
                     }
@@ -1225,7 +1229,7 @@ pub fn gen_graph(prop: &str, tier: Tier, rng: &mut Rng, seed: u64, run: u64) -> 
                 _ => {
                     let i = rng.below(2) as i64;
                     if faulty {
-                        if rng.chance(0.5) { plan.push("LQN", &[i]) } else { plan.push("LQE", &[i, rng.range(1, 2)]) }
+                        if rng.chance(0.5) { plan.push("LQN", &[i]) } else { plan.push("LQE", &[i, rng.range(1, 3)]) }
                     } else {
                         plan.push("LQ", &[i, t, fb(rng.moderate_f32())]);
                     }
